@@ -193,6 +193,23 @@ func C07(r *h.Run) {
 				r.Fail(h.Failure{Key: "serve/oversize-delivered", Family: "serve", What: "user code received a message beyond the read limit", Input: in, Actual: len(m)})
 			}
 		}
+		if !(unary && proto == "connect") {
+			// enveloped request: user code cannot have received more messages than
+			// the body holds data frames (flags 0 or 1) before its first special or
+			// malformed frame
+			dataFrames, rest := 0, body
+			for len(rest) >= 5 && (rest[0] == 0 || rest[0] == 1) {
+				n := int(rest[1])<<24 | int(rest[2])<<16 | int(rest[3])<<8 | int(rest[4])
+				if n < 0 || len(rest)-5 < n {
+					break
+				}
+				dataFrames++
+				rest = rest[5+n:]
+			}
+			if len(got) > dataFrames {
+				r.Fail(h.Failure{Key: "serve/phantom-message", Family: "serve", What: fmt.Sprintf("user code received %d message(s) but the request holds only %d data frame(s) before its first special or malformed frame", len(got), dataFrames), Input: in})
+			}
+		}
 		status := rec.Code
 		bare := status == 505 || status == 405 || status == 415
 		advertised := map[string]bool{}
